@@ -32,6 +32,9 @@ def run_composite(pid, tier, seed, plans):
         cov["exhaustive"] = cov["exhaustive"] and c.get("exhaustive", False)
         for k in ("models", "worlds", "defect_sensitivity"):
             cov[k] += c.get(k, [])
+        for k, v in c.get("interp_stats", {}).items():
+            cov.setdefault("interp_stats", {})
+            cov["interp_stats"][k] = cov["interp_stats"].get(k, 0) + v
         cov["repo_include_hash"] = c.get("repo_include_hash")
     assumptions = []
     for e in parts:
@@ -56,6 +59,8 @@ def run_plan(pid, tier, seed, plan, evidence_name=None):
             if role == "cover":
                 res, scripts, n = se.emit_cover(m["module"], m["constants"], m["invariants"], wd, m["tag"], heap=m.get("heap", "8g"),
                                                 extra_constraints=m.get("constraints", ()))
+                if m.get("last_ops"):
+                    scripts, n = se.filter_last_op(scripts, m["last_ops"])
                 script_sets.append((m["tag"], scripts, n, m.get("fraction", 1.0)))
             elif role == "simulate":
                 res, scripts, n = se.emit_cover(m["module"], m["constants"], m["invariants"], wd, m["tag"], simulate=m["simulate"] % {"seed": seed},
